@@ -399,10 +399,16 @@ func (conn *Conn) internalConnect(ctx context.Context) error {
 	conn.initialise()
 
 	if !hasPort(conn.cfg.Server) {
+		// JoinHostPort brackets a host containing colons itself: hand it
+		// a bracketed IPv6 literal ("[::1]") without the brackets.
+		host := conn.cfg.Server
+		if strings.HasPrefix(host, "[") && strings.HasSuffix(host, "]") {
+			host = host[1 : len(host)-1]
+		}
 		if conn.cfg.SSL {
-			conn.cfg.Server = net.JoinHostPort(conn.cfg.Server, "6697")
+			conn.cfg.Server = net.JoinHostPort(host, "6697")
 		} else {
-			conn.cfg.Server = net.JoinHostPort(conn.cfg.Server, "6667")
+			conn.cfg.Server = net.JoinHostPort(host, "6667")
 		}
 	}
 
